@@ -11,6 +11,8 @@ mod statex;
 mod util;
 
 mod c01;
+mod c02;
+mod chan;
 
 #[global_allocator]
 static GLOBAL: alloc::Counting = alloc::Counting;
@@ -57,6 +59,7 @@ fn main() {
         let id = v["property"].as_str().unwrap_or("").to_string();
         let out = match id.as_str() {
             "C01" => c01::replay(&v["replay"]),
+            "C02" => c02::replay(&v["replay"]),
             _ => {
                 eprintln!("no replay for {}", id);
                 std::process::exit(2);
@@ -75,6 +78,7 @@ fn main() {
         let thorough = tier == "thorough";
         match args[1].to_uppercase().as_str() {
             "C01" => c01::run(thorough),
+            "C02" => c02::run(thorough),
             other => {
                 eprintln!("unknown check {}", other);
                 2
